@@ -257,9 +257,9 @@ class TaskCoordinator:
                             )
                         process_completed_tasks()
                 except KeyboardInterrupt as first_keyboard_interrupt:
-                    logger.info(('Interrupted. Finishing running tasks. '
-                                 'Press Ctrl-C again to terminate running tasks immediately.'))
                     try:
+                        logger.info(('Interrupted. Finishing running tasks. '
+                                     'Press Ctrl-C again to terminate running tasks immediately.'))
                         runner.cancel()
                         # Process completed tasks until running tasks
                         # have completed.
